@@ -5,7 +5,8 @@ Mode A:
     get_downstream_stages / get_skipped_stages (+ the handler's backward test) on real Workflow /
     StageExecution objects versus `Stab.Jump` (driver token `jump`), every (source, target) pair.
   * `handler`: the REAL JumpToStageHandler.handle on a real SQLite store (no processor): which stages are
-    re-armed / skipped / given `_jump_count`, whether the jump is accepted, versus `jump effect` / `jump budget`.
+    re-armed / skipped / given `_jump_count`, whether the jump is accepted / rejected / ignored as stale (source not RUNNING),
+    versus `jump effect` / `jump budget`.
 Monitors (independent of the driver): set-based oracles for the property's sentences "a backward jump re-arms
 exactly the target and the stages that depend only on it", "a forward jump marks the bypassed stages skipped",
 "a stage can redirect only a bounded number of times (max_jumps)".
@@ -22,7 +23,7 @@ RULE = ("traversal: every graph (cyclic and dangling ones included) with <=3 sta
         "diamond with outside fan-in, isolated stages, reversed listing order), random DAGs with 1..9 stages listed in random order, "
         "random cyclic/dangling graphs; for each graph every root and every (source,target) pair; "
         "handler: random DAGs <=6 stages x workflow/stage _max_jumps in {absent,0,1,2,3} x initial _jump_count in {absent,0..3} x "
-        "sequences of <=7 jumps with forced pre-states; distinct by canonical driver line; non-trivial when the graph has an edge")
+        "sequences of <=7 jumps with forced pre-states (15% stale: source not RUNNING); distinct by canonical driver line; non-trivial when the graph has an edge")
 ASSUMPTIONS = [
     "stage ref_ids are distinct; requisite_stage_ref_ids is a set (the model's prerequisite lists are order-insensitive)",
     "store_stage bumps stage_executions.version, so a changed version identifies the stages one jump rewrote",
@@ -283,6 +284,7 @@ class HandlerRig:
         self.queue._create_table()
         self.handler = JumpToStageHandler(self.queue, self.store)
         self.ro = sqlite3.connect(str(self.path), isolation_level=None)
+        self.msg_seq = 0
 
     def close(self) -> None:
         try:
@@ -320,9 +322,12 @@ class HandlerRig:
             for sid, st in zip(ids, pre):
                 self.ro.execute("UPDATE stage_executions SET status=? WHERE id=?", (st, sid))
             before = self.rows(ids)
-            self.handler.handle(JumpToStage(execution_type=wf.type.value, execution_id=wf.id, stage_id=ids[s], target_stage_ref_id=f"s{t}"))
+            self.msg_seq += 1
+            m = JumpToStage(execution_type=wf.type.value, execution_id=wf.id, stage_id=ids[s], target_stage_ref_id=f"s{t}")
+            m.message_id = f"c15-{self.msg_seq}"
+            self.handler.handle(m)
             after = self.rows(ids)
-            obs.append({"before": before, "after": after})
+            obs.append({"before": before, "after": after, "processed": bool(self.store.is_message_processed(m.message_id))})
         self.ro.execute("DELETE FROM queue_messages")
         return {"obs": obs}
 
@@ -368,7 +373,8 @@ def handler_scenario(rng, uniform_pre: bool):
             p = ["NOT_STARTED"] * n
         else:
             p = [rng.choice(["NOT_STARTED", "SUCCEEDED", "SUCCEEDED", "RUNNING", "TERMINAL", "SKIPPED"]) for _ in range(n)]
-        p[s] = "RUNNING"
+        # the source is RUNNING (a task of it asked for the jump) unless the message is stale
+        p[s] = "RUNNING" if rng.random() < 0.85 else rng.choice(["NOT_STARTED", "SUCCEEDED", "CANCELED", "TERMINAL", "PAUSED", "SKIPPED"])
         pre.append(p)
     return {"kind": "handler", "g": g, "wf": wf, "st": st, "cs": cs, "jumps": jumps, "pre": pre, "uniform": uniform_pre}
 
@@ -383,12 +389,29 @@ def check_handler_scenario(ctx, rig: HandlerRig, sc, inputs, lines, impl) -> Non
     lowered: set[int] = set()
     for j, ((s, t), pre, ob) in enumerate(zip(sc["jumps"], sc["pre"], res["obs"])):
         before, after = ob["before"], ob["after"]
-        rejected = after[s][0] == "TERMINAL" and all(after[i][1] == before[i][1] for i in range(n) if i != s)
-        accepted = not rejected
-        flags.append("A" if accepted else "R")
+        untouched = all(after[i] == before[i] for i in range(n))
+        stale = pre[s] != "RUNNING"
+        ignored = untouched and stale
+        rejected = (not ignored) and after[s][0] == "TERMINAL" and all(after[i][1] == before[i][1] for i in range(n) if i != s)
+        accepted = not rejected and not ignored
+        flags.append("I" if ignored else "A" if accepted else "R")
         src_count = 0 if before[s][2] is None else before[s][2]
         mx = effective_max(sc, s)
         rep = dict(sc, upto=j + 1)
+        # monitor: a JumpToStage is requested by a task of a RUNNING stage; a stale one must change nothing
+        if stale and not untouched:
+            ctx.violation(f"stale JumpToStage s{s}->s{t} (source {pre[s]}, not RUNNING) was applied: "
+                          f"{[(b[0], a[0]) for b, a in zip(before, after) if a != b]}", "stale-jump-applied", rep)
+        if not ob.get("processed", True):
+            ctx.violation(f"JumpToStage s{s}->s{t} (source {pre[s]}) handled but not marked processed", "jump-message-not-marked-processed", rep)
+        if ignored:
+            ctx.tag("jump:ignored-stale")
+            if sc["uniform"]:
+                inputs.append(dict(sc, upto=j + 1, what="effect"))
+                lines.append(f"jump effect 0 {s} {t} {gline(g)}")
+                impl.append("IGNORED")
+                ctx.count(lines[-1] + f"#{j}", any(g))
+            continue
         # monitor: budget as stated
         if accepted and src_count >= mx:
             ctx.violation(f"jump s{s}->s{t} accepted although the source's _jump_count {src_count} >= max_jumps {mx}", "jump-accepted-beyond-budget", rep)
@@ -397,11 +420,11 @@ def check_handler_scenario(ctx, rig: HandlerRig, sc, inputs, lines, impl) -> Non
         if accepted:
             per_source_accepts[s] = per_source_accepts.get(s, 0) + 1
             cnt = lambda row: 0 if row[2] is None else row[2]  # noqa: E731
-            for i in range(n):
-                if cnt(after[i]) < cnt(before[i]):
-                    lowered.add(i)
+            lowered_now = {i for i in range(n) if cnt(after[i]) < cnt(before[i])}
+            lowered |= lowered_now
             # monitor: an accepted jump consumes the source's budget (the mechanism that bounds loops)
-            if cnt(after[s]) <= cnt(before[s]) or cnt(after[t]) != cnt(before[s]) + 1:
+            want_t = cnt(before[s]) + 1 if s == t else max(cnt(before[t]), cnt(before[s]) + 1)
+            if cnt(after[s]) != cnt(before[s]) + 1 or cnt(after[t]) != want_t:
                 ctx.violation(f"accepted jump s{s}->s{t} did not consume budget: source count {cnt(before[s])}->{cnt(after[s])}, "
                               f"target count {cnt(before[t])}->{cnt(after[t])}", "accepted-jump-does-not-consume-budget", rep)
             if sc["cs"][s] in (None, 0) and per_source_accepts[s] > max(mx, 0):
@@ -430,16 +453,19 @@ def check_handler_scenario(ctx, rig: HandlerRig, sc, inputs, lines, impl) -> Non
             ctx.tag("jump:backward" if backward else "jump:forward", "jump:self" if s == t else "jump:other")
             if sc["uniform"]:
                 inputs.append(dict(sc, upto=j + 1, what="effect"))
-                lines.append(f"jump effect {s} {t} {gline(g)}")
+                lines.append(f"jump effect 1 {s} {t} {gline(g)}")
                 impl.append(f"{'B' if src_succ is False else 'F'} rearm={nats(rearm_obs)} skip={nats(skip_obs)} src={'S' if src_succ else '-'}")
                 ctx.count(lines[-1] + f"#{j}", any(g))
+            if lowered_now:
+                ctx.violation(f"jump s{s}->s{t} LOWERED the _jump_count of stage(s) {sorted(lowered_now)}: "
+                              f"{[cnt(b) for b in before]} -> {[cnt(a) for a in after]}", "jump-count-lowered", rep)
         else:
             ctx.tag("jump:rejected")
         counts = [0 if a[2] is None else a[2] for a in after]
     inputs.append(dict(sc, what="budget"))
     opt = lambda x: "none" if x is None else str(x)  # noqa: E731
     lines.append(f"jump budget {opt(sc['wf'])} {','.join(opt(x) for x in sc['st'])} "
-                 f"{','.join(str(0 if c is None else c) for c in sc['cs'])} {';'.join(f'{s}:{t}' for s, t in sc['jumps'])}")
+                 f"{','.join(str(0 if c is None else c) for c in sc['cs'])} {';'.join(f'{s}:{t}' + ('' if p[s] == 'RUNNING' else ':x') for (s, t), p in zip(sc['jumps'], sc['pre']))}")
     impl.append("".join(flags) + "|" + ",".join(str(c) for c in counts))
     ctx.count(lines[-1], True)
 
@@ -559,6 +585,10 @@ def check_engine_loop(ctx, body, verbose=False) -> bool:
             bad = True
             ctx.violation(f"real engine: stage {ref} was granted {k} jumps (workflow total {len(accepted)}) with _max_jumps={mx}: an incoming "
                           f"jump overwrites the target's _jump_count with source count + 1, lowering it", FINDING_SIG, body)
+    if len(accepted) > len(body["scripts"]) * max(mx, 0):
+        bad = True
+        ctx.violation(f"real engine: {len(accepted)} accepted jumps in a workflow of {len(body['scripts'])} stages with _max_jumps={mx} "
+                      f"(bound n*M = {len(body['scripts']) * max(mx, 0)})", "workflow-exceeds-n-times-max-jumps", body)
     ctx.extra.setdefault("engine_loops", []).append({"max": mx, "accepted_total": len(accepted), "per_source": per_src,
                                                      "workflow": r["workflow"], "executions": r["executions"]})
     ctx.count(body, True)
@@ -609,7 +639,8 @@ def model_loop_suite(ctx) -> None:
         rig.close()
     ctx.correspond("handler-ping", inputs, lines, impl)
     if ctx.thorough:
-        # the default budget (no _max_jumps anywhere => 10) on the full real engine: 65 accepted jumps, 55 from s0
+        # the default budget (no _max_jumps anywhere => 10) on the full real engine; before the fix of the jump-count
+        # finding this loop was granted 65 jumps (55 from s0), now s0 is TERMINAL at its 11th request
         a = []
         for k in range(10, 0, -1):
             a += ["J0"] * k + ["S"]
